@@ -184,6 +184,14 @@ def build():
     c.append(E("progressions", "interval_diff", "I", "V", 7))
     c.append(E("progressions", "interval_diff", "V", "I", 5))
     c.append(E("progressions", "interval_diff", "ii", "vi", 7))
+    # the whole small domain: an answer for (a, b, n) must not depend on what was asked for (a, b', n) before
+    for p1 in ("I", "II", "III", "IV", "V", "VI", "VII"):
+        for p2 in ("I", "II", "III", "IV", "V", "VI", "VII"):
+            for n in (1, 3, 8, 9):
+                c.append(E("progressions", "interval_diff", p1, p2, n))
+    for p1 in ("I", "IV", "VII"):
+        for n in (1, 2, 3):
+            c.append(E("progressions", "skip", p1, n))
     # ---- value
     for a in (1, 2, 4, 8, 16, 3, 6, 5, 12):
         for b in (4, 8, 16, 6):
